@@ -1872,6 +1872,12 @@ class Prop(Check):
             if len(hist) > 1:
                 for i in range(len(hist)):
                     yield dict(case, history=hist[:i] + hist[i + 1:], origin="shrunk")
+            # a step as the case itself, after the steps before it (the failure may sit in the history)
+            for i in range(len(hist) - 1, -1, -1):
+                c = dict(case, text=hist[i]["text"], opts=hist[i].get("opts") or {}, history=hist[:i], origin="shrunk")
+                if not hist[:i]:
+                    del c["history"]
+                yield c
         toks = tokenize(case["text"])
         lines = case["text"].split("\n")
         if len(lines) > 2:
